@@ -15,17 +15,17 @@ import (
 // RSCase is one re-encryption between two rings: ring degree N <-> N/2^j (ApplyEvaluationKey) or
 // standard <-> conjugate-invariant (ckks.DomainSwitcher).
 type RSCase struct {
-	Params  h.RLWESpec `json:"params"` // the larger / standard ring
-	LogGap  int        `json:"logGap"` // smaller ring degree = N >> logGap (bridge: CI ring of degree N/2)
-	SmallP  []uint64   `json:"smallP"` // auxiliary primes of the smaller ring's parameters (may differ from P)
-	Key     KeySpec    `json:"key"`
-	Dir     string     `json:"dir"` // down | up | c2r | r2c
-	CtLevel int        `json:"ctLevel"`
-	Pat     string     `json:"pat"`
-	Dirty   bool       `json:"dirty"` // the output ciphertext holds stale data before the call
-	FlipNTT  bool `json:"flipNTT,omitempty"`  // down/up: ciphertext in the domain opposite to the parameters' NTTFlag
-	OutLevel int  `json:"outLevel,omitempty"` // down/up: level at which the receiver is allocated (if above the ciphertext level)
-	Seed    uint64     `json:"seed"`
+	Params   h.RLWESpec `json:"params"` // the larger / standard ring
+	LogGap   int        `json:"logGap"` // smaller ring degree = N >> logGap (bridge: CI ring of degree N/2)
+	SmallP   []uint64   `json:"smallP"` // auxiliary primes of the smaller ring's parameters (may differ from P)
+	Key      KeySpec    `json:"key"`
+	Dir      string     `json:"dir"` // down | up | c2r | r2c
+	CtLevel  int        `json:"ctLevel"`
+	Pat      string     `json:"pat"`
+	Dirty    bool       `json:"dirty"`              // the output ciphertext holds stale data before the call
+	FlipNTT  bool       `json:"flipNTT,omitempty"`  // down/up: ciphertext in the domain opposite to the parameters' NTTFlag
+	OutLevel int        `json:"outLevel,omitempty"` // down/up: level at which the receiver is allocated (if above the ciphertext level)
+	Seed     uint64     `json:"seed"`
 }
 
 func (c RSCase) RandSeed() uint64 { return c.Seed }
@@ -34,17 +34,20 @@ func genRS(t *rapid.T) RSCase {
 	var c RSCase
 	c.Dir = []string{"down", "up", "down", "up", "c2r", "r2c"}[rapid.IntRange(0, 5).Draw(t, "dir")]
 	bridge := c.Dir == "c2r" || c.Dir == "r2c"
-	maxLogN := 6
+	minLogN, maxLogN := 5, 6
 	if h.Thorough() {
 		maxLogN = 7
+		if rapid.IntRange(0, 15).Draw(t, "largeN") == 0 {
+			minLogN, maxLogN = 8, 9
+		}
 	}
 	if bridge {
 		yes := true
-		c.Params = genParams(t, 5, maxLogN, false, &yes) // CKKS: NTT domain only
+		c.Params = genParams(t, minLogN, maxLogN, false, &yes) // CKKS: NTT domain only
 		c.LogGap = 1
 	} else {
-		c.Params = genParams(t, 5, maxLogN, true, nil)
-		c.LogGap = rapid.IntRange(1, c.Params.LogN-4).Draw(t, "logGap")
+		c.Params = genParams(t, minLogN, maxLogN, true, nil)
+		c.LogGap = rapid.IntRange(1, minInt(c.Params.LogN-4, 3)).Draw(t, "logGap")
 	}
 	c.Key = genKey(t, c.Params, true)
 	if len(c.Params.P) > 0 && rapid.Bool().Draw(t, "otherP") {
